@@ -15,5 +15,5 @@ SlurmSome == {s \in Slurm : (s.q = None \/ s.a \in {None, "COMPLETED", "FAILED",
 Others(b, tbl) == {Scn(b, q, None, TRUE, f, o) : q \in DOMAIN tbl \cup {None}, f \in {"complete", "stale"}, o \in {"run", "fail"}}
 Batches == {[Scn("slurm", None, a, TRUE, "complete", "fail") EXCEPT !.batch = k] : a \in {"FAILED", "RUNNING"}, k \in 1..3}
 
-ASSUME \A s \in SlurmSome \cup Others("sge", SGE) \cup Others("lsf", LSF) \cup Batches : PrintT(ToJson(s))
+ASSUME \A s \in SlurmSome \cup Others("sge", SGE) \cup Others("lsf", LSF) \cup Others("local", Local) \cup Batches : PrintT(ToJson(s))
 =============================================================================
